@@ -803,6 +803,10 @@ func (interp *Interpreter) cfg(root *node, sc *scope, importPath, pkgName string
 					dest.gen = nop
 				case isFuncField(dest):
 					// Setting a struct field of function type requires an extra step. Do not optimize.
+				case n.nleft > 1 && (isCall(src) || src.action == aRecv || src.action == aCompositeLit):
+					// In a multiple assignment, all sources must be evaluated before any
+					// destination is set, and skipping the assign operation would skip it
+					// for all operands. Do not optimize.
 				case isCall(src) && !isInterfaceSrc(dest.typ) && n.kind != defineStmt:
 					// Call action may perform the assignment directly.
 					if dest.typ.id() != src.typ.id() {
